@@ -259,6 +259,10 @@ def main(run, replay=None):
     from vcore import zoo as _z
 
     names = [e.name for e in _z.entries()]
+    if replay and replay["case"].get("kind") == "nets":
+        from vcore import nets
+
+        return nets.replay(run, replay["case"], "C12")
     if replay and replay["case"].get("variant") == "prior":
         c = replay["case"]
         for f in prior_task(([tuple(c["comp"])], c["seed"]))["fails"]:
@@ -294,8 +298,12 @@ def main(run, replay=None):
             continue
         seen.add(key)
         run.violation({"name": f["name"], "clause": f["clause"], "op": f["op"], "variant": f["variant"]}, f["detail"], {k: v for k, v in f.items() if k != "detail"})
+    from vcore import nets
+
+    nets.run_leg(run, "C12")
     run.exhaustive = True
     run.assumptions = [
+        "conditioner-network leg (Nets.tla): row coupling is measured on row 0 after changing every other row of inputs and context, threshold 1e-9",
         "float64 models (1e-9: BLAS may reorder sums); UMNN layers in float32 (2e-4)",
         "each evaluation uses a model freshly built and loaded from one state dict, so cross-call state cannot mask a batch dependence",
     ]
